@@ -80,19 +80,24 @@ fn cells_meet(e0: i64, n0: i64, e1: i64, n1: i64, tmin: i64, tmax: i64) -> bool 
 }
 
 macro_rules! lat_exact {
-    ($name:ident, $odd_last:expr, $south:expr) => {
+    ($name:ident, $zone:expr, $odd_last:expr, $south:expr) => {
         harness! {
             #[kani::unwind(60)]
             #[kani::stub(alloc::fmt::format, crate::stubs::fmt_stub)]
             /// latitude stage, every pair of extended counts whose cells share a latitude in
-            /// [-90, 90] (one hemisphere, one report order per harness; longitude counts 0)
+            /// [-90, 90], even count in latitude zone $zone of one hemisphere, one report order
+            /// (longitude counts 0)
             fn $name(s) {
+                const Z: i64 = $zone;
                 let e0 = s.i64();
                 let e1 = s.i64();
+                let top = if Z == 14 { 15 * P17 } else { (Z + 1) * P17 - 1 }; // zone 14 includes lat = 90
                 if $south {
-                    vassume!(e0 >= -60 * 32768 && e0 <= 0 && e1 >= -59 * 32768 && e1 <= 0);
+                    vassume!(e0 <= -Z * P17 && e0 >= -top);
+                    vassume!(e1 <= 0 && e1 >= -59 * 32768);
                 } else {
-                    vassume!(e0 >= 0 && e0 <= 60 * 32768 && e1 >= 0 && e1 <= 59 * 32768);
+                    vassume!(e0 >= Z * P17 && e0 <= top);
+                    vassume!(e1 >= 0 && e1 <= 59 * 32768);
                 }
                 vassume!(cells_meet(e0, 60, e1, 59, -32768, 32768));
                 let even = report(false, e0.rem_euclid(P17) as u32, 0);
@@ -101,7 +106,6 @@ macro_rules! lat_exact {
                 let r0 = 6.0 * (e0 as f64) / 131072.0;
                 let r1 = (360.0 / 59.0) * (e1 as f64) / 131072.0;
                 vcover!(r.is_some());
-                vcover!(r.is_none());
                 match r {
                     None => vassert!(nl_ref(r0) != nl_ref(r1) || nl_borderline(r0) || nl_borderline(r1),
                                      "no position only when the two reports are in different longitude-zone bands"),
@@ -116,13 +120,11 @@ macro_rules! lat_exact {
         }
     };
 }
-lat_exact!(lat_north_even_last, false, false);
-lat_exact!(lat_north_odd_last, true, false);
-lat_exact!(lat_south_even_last, false, true);
-lat_exact!(lat_south_odd_last, true, true);
+include!("gen/c04_lat.rs");
 
 macro_rules! lon_exact {
-    ($name:ident, $nl:expr, $odd_last:expr, $south:expr) => {
+    ($name:ident, $nl:expr, $odd_last:expr, $south:expr) => { lon_exact!($name, $nl, $odd_last, $south, 0, 59); };
+    ($name:ident, $nl:expr, $odd_last:expr, $south:expr, $zlo:expr, $zhi:expr) => {
         harness! {
             #[kani::unwind(60)]
             #[kani::stub(alloc::fmt::format, crate::stubs::fmt_stub)]
@@ -136,6 +138,8 @@ macro_rules! lon_exact {
                 let f0 = s.i64();
                 let f1 = s.i64();
                 vassume!(f0 >= 0 && f0 <= N0 * P17 && f1 >= 0 && f1 <= N1 * P17);
+                // even longitude count restricted to longitude zones $zlo..=$zhi (the top zone includes the wrap count)
+                vassume!(f0 >= $zlo * P17 && f0 < ($zhi + 1) * P17 + if $zhi + 1 >= N0 { 1 } else { 0 });
                 // s = lon * 2^17 / 360 in [0, 2^17): N0*s in even cell, N1*s in odd cell
                 vassume!(cells_meet(f0, N0, f1, N1, 0, P17));
                 vassume!(2 * f0 - 1 < 2 * N0 * P17 && 2 * f1 - 1 < 2 * N1 * P17); // lon < 360
@@ -156,6 +160,8 @@ macro_rules! lon_exact {
     };
 }
 include!("gen/c04_lon.rs");
+lon_exact!(probe_nl30_odd_z7, 30, true, false, 7, 7);
+lon_exact!(probe_nl30_odd_z0_4, 30, true, false, 0, 4);
 
 harness! {
     #[kani::unwind(60)]
@@ -193,10 +199,6 @@ harness! {
 }
 
 pub const BASE: &[(&str, fn(&mut crate::src::Tape))] = &[
-    (concat!(module_path!(), "::lat_north_even_last"), lat_north_even_last::replay),
-    (concat!(module_path!(), "::lat_north_odd_last"), lat_north_odd_last::replay),
-    (concat!(module_path!(), "::lat_south_even_last"), lat_south_even_last::replay),
-    (concat!(module_path!(), "::lat_south_odd_last"), lat_south_odd_last::replay),
     (concat!(module_path!(), "::same_parity_none"), same_parity_none::replay),
     (concat!(module_path!(), "::range_any_pair"), range_any_pair::replay),
 ];
